@@ -3,5 +3,5 @@ CONSTANTS
   MaxDocs = 3
 INIT Init
 NEXT Next
-INVARIANTS NoPanic StackSync PathShape OutIsPrefix Final
+INVARIANTS NoPanic StackSync PathShape OutIsPrefix Final DecodeFinal
 CHECK_DEADLOCK TRUE
